@@ -686,6 +686,76 @@ static void op_run(Cur &c, Out &o)
         throw std::logic_error("unsupported label/weight type " + lt + wt);
 }
 
+// ------------------------------------------------------------------------------ run2: one Solver object, two runs
+// `run2 dir assort init r maxit nconv  (K u u <recs> seed naff aff…) x 2` — the public class `solver::Solver` is
+// constructed once and `run` is called on two unrelated problems; the second result is reported (the caller
+// compares it with the same problem run through a fresh solver).  size_t labels and weights.
+template <class D, class Aff, class Init>
+void op_run2_t(Cur &c, Out &o)
+{
+    size_t nr = c.nat(), maxit = c.nat(), nconv = c.nat();
+    solver::Solver slv(nr, maxit, nconv);
+    for (int pass = 0; pass < 2; pass++)
+    {
+        size_t K = c.nat();
+        std::string lt = c.tok(), wt = c.tok();
+        if (lt != "u" || wt != "u")
+            throw std::logic_error("run2 needs size_t labels and weights");
+        auto r = parse_recs<size_t, size_t>(c);
+        long long seed = c.integer();
+        auto aff = c.flts();
+        size_t N = utils::get_num_vertices(r.starts, r.ends);
+        size_t L = r.starts.empty() ? 0 : r.weights.size() / r.starts.size();
+        Matrix<double> u(N, K), v(N, K);
+        graph::Network<size_t, D> A(r.starts, r.ends, r.weights);
+        auto ul = std::make_shared<std::vector<size_t>>();
+        auto vl = std::make_shared<std::vector<size_t>>();
+        A.extract_vertices_with_edges(ul, vl);
+        Aff w(K, L, aff);
+        utils::RandomGenerator<> rng{(std::time_t)seed};
+        utils::Report rep = slv.template run<Init>(*ul, *vl, A, u, v, w, rng);
+        if (pass == 1)
+        {
+            o.kv("err", "0");
+            o.dl("u", u.get_data());
+            o.dl("v", v.get_data());
+            o.dl("aff", w.get_data());
+            o.list("iters", rep.vec_iter);
+            std::vector<std::string> rs(rep.vec_term_reason.begin(), rep.vec_term_reason.end());
+            o.list("reasons", rs);
+            o.dl("L2s", rep.vec_L2);
+            o.kv("nreal", std::to_string(rep.nof_realizations));
+            o.kv("maxL2", hx(rep.max_L2()));
+        }
+    }
+}
+
+static void op_run2(Cur &c, Out &o)
+{
+    using namespace initialization;
+    bool dir = c.boolean(), assort = c.boolean();
+    std::string init = c.tok();
+#define RUN2(D, A)                                                       \
+    do                                                                   \
+    {                                                                    \
+        if (init == "r")                                                 \
+            op_run2_t<D, A, init_symmetric_tensor_random>(c, o);         \
+        else if (init == "f")                                            \
+            op_run2_t<D, A, init_symmetric_tensor_from_initial<A>>(c, o); \
+        else                                                             \
+            throw std::logic_error("bad init kind");                     \
+    } while (0)
+    if (dir && !assort)
+        RUN2(boost::bidirectionalS, SymmetricTensor<double>);
+    else if (dir && assort)
+        RUN2(boost::bidirectionalS, DiagonalTensor<double>);
+    else if (!dir && !assort)
+        RUN2(boost::undirectedS, SymmetricTensor<double>);
+    else
+        RUN2(boost::undirectedS, DiagonalTensor<double>);
+#undef RUN2
+}
+
 // ------------------------------------------------------------------------------ validate
 
 template <class D, class Aff, class Init>
@@ -985,6 +1055,8 @@ int main(int argc, char **argv)
                 op_sweep(c, o);
             else if (op == "run")
                 op_run(c, o);
+            else if (op == "run2")
+                op_run2(c, o);
             else if (op == "validate")
                 op_validate(c, o);
             else if (op == "rng")
